@@ -125,3 +125,17 @@ class PathLog:
 
     def __bool__(self):
         return bool(self.runs[-1])
+
+
+class Seen(dict):
+    """record of what a substituted callee was called with; reading a missing entry means the code under contract
+    never called it - reported as the failed obligation <name>/callee-called instead of a KeyError of the harness"""
+
+    def __init__(self, name):
+        dict.__init__(self)
+        self.name = name
+
+    def __missing__(self, key):
+        from engine.runner import CalleeNotCalled
+
+        raise CalleeNotCalled(self.name, key)
